@@ -6,5 +6,5 @@ Require Import ExtrOcamlBasic.
 Extraction Language OCaml.
 Extraction "../ocaml/c03/model.ml" parse_region save_region parse_fv parse_file parse_section
   asm asm_bios node_buf create_pad_file
-  parse_cli parse_bios run_op asm_bios_v edit_and_save find_elems guid_string guid_parse
+  parse_cli parse_bios run_op edit_and_save find_elems guid_string guid_parse
   valid_image abs_fv fmatch fv_name.
